@@ -34,7 +34,8 @@ def app(environ, start_response):
     parts = [p for p in path.split("/") if p]
     kind = parts[0] if parts else "pid"
     arg = parts[1] if len(parts) > 1 else ""
-    info = "pid=%d marker=%s %s\n" % (os.getpid(), os.environ.get("VERIF_MARKER", "-"), _ids())
+    info = "pid=%d marker=%s %s script=%s path=%s\n" % (os.getpid(), os.environ.get("VERIF_MARKER", "-"), _ids(),
+                                                        environ.get("SCRIPT_NAME", ""), environ.get("PATH_INFO", ""))
     body = info.encode()
     if kind == "gate":
         _touch("started-" + arg)
